@@ -201,6 +201,7 @@ impl RawGen {
             term_faults: vec![],
             unreadable: vec![],
             fs_write_faults: vec![],
+            file_updates: vec![],
         }
     }
 
